@@ -38,7 +38,9 @@ P = {
          "consecutive flags share bytes LSB first, eight to a byte, every other entry starts on a fresh byte and is the packed form of its type; "
          "whole message with version word and frame versions; the Coq layout is compared with the generator's on every case), C05_uid (the UID "
          "text is the canonical base-32 numeral, no leading zero, of the little-endian number UID bytes ++ CRC-16; the CRC stays a 16-bit word) "
-         "and C05_product (whole product-information message). Every kind is also run against the real frame classes on generated values and on "
+         "and C05_product (whole product-information message); C05_regdata_history: a model of the lazily decoded, cached frame data - however "
+         "often a frame was looked at before it was handed to its device, afterwards it decodes with that device's schema (C05_context_pinned_refuted: D25). "
+         "Every kind is also run against the real frame classes on generated values and on "
          "every capture of tests/testdata; determinism and payload immutability are checked on the implementation.",
          "the CRC-16 polynomial arithmetic and the 32-character alphabet are the model's definitions (validated by correspondence on generated "
          "and captured UIDs); text decoding and float32 widening are CPython's."),
